@@ -28,6 +28,8 @@ def bases(tier, seed):
     out.append(gb)
     out.append(S("SunflowerGDD", "Loam", seed=seed + 13, seasons=3, regime="hot", harvest_date="10/30", wparams={"yr_amp": 3.0},
                  events=[{"from": "2002/06/10", "to": "2002/07/20", "Tmax": 41.0, "Tmin": 27.0}, {"from": "2003/06/10", "to": "2003/07/20", "Tmax": 40.0, "Tmin": 26.0}]))
+    # thresholds that differ between the first and the last growth stage, with a day-1 depletion between the two
+    out.append(S("Maize", "SandyLoam", seed=seed + 20, seasons=3, irr={"method": 1, "kw": {"SMT": [80, 60, 60, 20]}}, iwc={"wc_type": "Pct", "value": [50]}))
     # a window that starts AFTER the planting day of its first calendar year (the first season is sown the year after the start)
     late = S("Barley", "Loam", seed=seed + 19, seasons=3, year=2002)
     late["start"] = "2001/04/25"
